@@ -42,7 +42,7 @@ def make_case(rng, i, ctx):
     else:
         x = np.round(rng.uniform(lo, hi, size=(2, npts)), 2)
         truth = np.array([f(ptrue, x[:, j]) for j in range(npts)])
-    force = (i % 7 == 0)                      # every seventh case (cycles through the families): correlated chi^2 together with priors
+    force = (i % 4 == 0)                      # every fourth case (cycles through the 7 families): correlated chi^2 together with priors
     kind = 'shared' if force else str(rng.choice(['independent', 'shared', 'mixed']))
     corr_mode = 'estimated' if (kind == 'shared' and npts <= 8 and (force or rng.random() < 0.5)) else 'none'
     ys = fitgen.data_points(rng, truth, kind, npts, nsamp=60 if corr_mode != 'none' else 30)
@@ -118,11 +118,11 @@ def make_case(rng, i, ctx):
 
 
 def make_tls(rng, i, ctx):
-    name = ['exp', 'rational', 'cosh', 'power', 'mixed2d'][i % 5]
+    # the 4-parameter 2-d family has 4 + 2*npts unknowns (minutes per case in exact arithmetic): thorough tier only
+    names = ['exp', 'rational', 'cosh', 'power', 'prod2d'] + ([] if ctx.quick else ['mixed2d'])
+    name = names[i % len(names)]
     n, D, f, eb, ptrue, (lo, hi) = fitgen.NONLINEAR[name]
     npts = int(rng.integers(n + 2, n + 4))
-    if D == 2 and ctx.quick:
-        npts = n + 1          # 4 + 2*5 unknowns: keeps the symbolic Hessian of the quick tier small
     xs = np.round(rng.uniform(lo, hi, size=(D, npts)), 2)
     xs.sort(axis=1)
     truth = np.array([f(ptrue, xs[0, j] if D == 1 else xs[:, j]) for j in range(npts)])
